@@ -16,7 +16,8 @@ TS_LOCS = ["SCHEMA", "SCALAR", "OBJECT", "FIELD_DEFINITION", "ARGUMENT_DEFINITIO
 
 
 class Gen:
-    def __init__(self, rng, fragment_variables=False, hostile_strings=True, max_depth=4, const_violation=False):
+    def __init__(self, rng, fragment_variables=False, hostile_strings=True, max_depth=4, const_violation=False,
+                 reserved_violation=False):
         self.rng = rng
         self.fragvars = fragment_variables
         self.hostile = hostile_strings
@@ -26,6 +27,9 @@ class Gen:
         # when set, exactly one value in a const position (variable defaults, directives of variable
         # definitions, anything in a type-system document) becomes a variable: the text is invalid
         self.const_violation = const_violation
+        # when set, exactly one name in a position where some words are reserved is such a word (an enum value
+        # called true / false / null, with or without a description in front; a fragment called `on`)
+        self.reserved_violation = reserved_violation
 
     def emit(self, *toks):
         self.out.extend(toks)
@@ -172,7 +176,11 @@ class Gen:
 
     def fragment_definition(self):
         self.emit("fragment")
-        self.name(exclude=("on",))
+        if self.reserved_violation and "reserved-violation" not in self.features and self.chance(0.5):
+            self.emit("on")
+            self.features.add("reserved-violation")
+        else:
+            self.name(exclude=("on",))
         if self.fragvars and self.chance(0.5):
             self.variable_definitions()
             self.features.add("fragment_variables")
@@ -255,6 +263,12 @@ class Gen:
             return True
         self.emit("{")
         for _ in range(self.rng.randint(1, 4)):
+            if self.reserved_violation and "reserved-violation" not in self.features and self.chance(0.6):
+                self.description(0.6)
+                self.emit(self.rng.choice(["true", "false", "null"]))
+                self.features.add("reserved-violation")
+                self.directives(True, 0.15)
+                continue
             self.description(0.2)
             self.emit(L.name(self.rng, exclude=("true", "false", "null")))
             self.directives(True, 0.15)
@@ -393,8 +407,8 @@ class Gen:
                 open_block = self.type_system_definition()
 
 
-def gen_tokens(rng, start, fragment_variables=False, hostile_strings=True, const_violation=False):
-    g = Gen(rng, fragment_variables, hostile_strings, const_violation=const_violation)
+def gen_tokens(rng, start, fragment_variables=False, hostile_strings=True, const_violation=False, reserved_violation=False):
+    g = Gen(rng, fragment_variables, hostile_strings, const_violation=const_violation, reserved_violation=reserved_violation)
     if start == "executable":
         g.executable_document()
     elif start == "typesystem":
